@@ -46,6 +46,10 @@ CLAIMED = {
    text="Twin execution: two identical parents (mem; mount.FS with the view's directory being a mount point, above one, inside one, both, or unrelated; os.FS with native Sub; a parent exposing only Open; chains of two Sub calls) are driven through the view at n and directly at dir/n with seeded histories of namespace operations, Rename, Sub and reads (40 / 900 histories per configuration, 18 configurations). After every step result class and data, the composed namespace AND every constituent file system of both parents must be equal, and everything outside dir must be unchanged, so a write that bypasses a nested mount or escapes the directory is seen at the step it happens.",
    note="Only the error class is compared (paths are C05's concern). Histories do not remove/rename the view's top directory. Symbolic links are never created.",
    technique="twin-execution runtime monitor (view vs direct) with whole-composition state comparison"),
+ "C08": dict(level="fault_enumeration", design="4/C08",
+   text="Twin execution full vs masked with generated wrapper types (one Go type per exposed method set, 88 FS types and 32 file types from tools/gen_capfs.py): for every helper, every subset of the interfaces its dispatch can consult (transitively), three bases (os.FS which natively implements everything, mem.FS, mount.FS over mem) and nine targets, the masked run must reproduce the full run's result class, data and final tree or fail with ErrNotImplemented leaving the tree unchanged; handles expose subsets of the file interfaces for the *File helpers and the fallbacks that rely on them. Fault enumeration: for every masked run the primitives it called are counted and the helper is re-run once per primitive index with that primitive failing; reported success is accepted only with the fault-free data and state.",
+   note="Only interfaces a base implements natively can be exposed or hidden. Symlink runs on os.FS only. Known: WriteFullFile's fallback truncates before discovering that handles cannot Write (F56).",
+   technique="twin execution over generated capability-masking wrappers plus single-fault injection at every primitive call index"),
 }
 NOT_YET = "monitor not built yet in this session (see DESIGN.md section 4 for the planned runtime monitor)"
 props = [json.loads(l)["id"] for l in open("/verif/properties.jsonl")]
